@@ -3,7 +3,7 @@ import RefurbVerif.Model.Types
 import RefurbVerif.Generated.SimpleTypes
 open Lean
 
-namespace RefurbVerif.Wire
+namespace RefurbVerif.Wire.TypesW
 open RefurbVerif.Types
 
 /-- the rendering of harness/astjson.py `describe_type` (kinds the model does not distinguish become `other`) -/
@@ -43,7 +43,7 @@ partial def tyJ : Ty → Json
   | .uninhabited => Json.mkObj [("t", "uninhabited")]
   | .other => Json.mkObj [("t", "other")]
 
-def valJ : Option Val → Json
+def tyValJ : Option Val → Json
   | none => Json.null
   | some (.ty t) => tyJ t
   | some (.info c) => Json.mkObj [("t", "typeinfo"), ("name", c)]
@@ -83,7 +83,7 @@ def toNames (j : Json) (k : String) : List (String × Sym) :=
     | _ => none)
 
 def toClass (j : Json) : ClassInfo :=
-  { fullname := str j "name", mro := strs j "mro", names := toNames j "names", enumMembers := strs j "enum_members",
+  { fullname := str j "name", mro := strs j "mro", names := toNames j "names", isEnum := bool j "is_enum", enumMembers := strs j "enum_members",
     specialCtor := bool j "special_ctor" }
 
 def toCtx (j : Json) : Ctx :=
@@ -108,7 +108,7 @@ partial def toExpr (j : Json) : Expr :=
   | "call" => .call (toExpr (obj j "callee"))
   | "unary" => .unary (str j "op") (optTy j "mt")
   | "op" => .op (str j "op") (optTy j "mt")
-  | "index" => .index (optTy j "mt") (bool j "base_union")
+  | "index" => .index (toExpr (obj j "base")) (optTy j "mt") (bool j "base_union")
   | "await" => .await (toExpr (obj j "e"))
   | "lambda" => .lambda (toExpr (obj j "body"))
   | "lambda_other" => .lambdaOther
@@ -149,8 +149,8 @@ def handleTypes (verb : String) (j : Json) : Option Json :=
       let e := toExpr ej
       let v := getMypyType Γ e
       Json.mkObj [
-        ("ty", valJ v),
-        ("ref", valJ (inferRef Γ e)),
+        ("ty", tyValJ v),
+        ("ref", tyValJ (inferRef Γ e)),
         ("plain", plainB Γ e),
         ("same", Json.arr (exps.map (fun x => Json.bool (isSameType tbl v [x]))).toArray),
         ("mapping", isMappingType tbl Γ v),
@@ -180,4 +180,8 @@ def handleTypes (verb : String) (j : Json) : Option Json :=
       ("pytype", optExpectedJ (mypyTypeToPythonType tbl v))])
   | _ => none
 
-end RefurbVerif.Wire
+end RefurbVerif.Wire.TypesW
+
+/-- exported under the name the driver dispatches on (the helpers stay in their own namespace: `toVal`, `valJ`
+    exist for the C01 wire too) -/
+def RefurbVerif.Wire.handleTypes := RefurbVerif.Wire.TypesW.handleTypes
